@@ -52,11 +52,16 @@ def workdir(pid):
     return d
 
 
-def pmv(args, timeout=1800, check=True, env=None):
+def pmv(args, timeout=1800, check=True, env=None, stats=None):
     r = sh([PMV] + [str(a) for a in args], timeout=timeout, env=env)
     if check and r.returncode != 0:
         log(r.stdout[-3000:])
         raise ToolError("harness command failed: pmv " + " ".join(str(a) for a in args))
+    if stats is not None:
+        for line in r.stdout.splitlines():
+            m = re.match(r"^stat (\w+)=(\d+)$", line) or re.match(r"^(events)=(\d+)$", line)
+            if m:
+                stats[m.group(1)] = stats.get(m.group(1), 0) + int(m.group(2))
     return r
 
 
@@ -96,21 +101,15 @@ def run_tlc(module, cfg, wd, name, env=None, workers=1, timeout=900, mx="6g", ex
     shutil.rmtree(meta, ignore_errors=True)
     res = {"rc": r.returncode, "wall": wall, "out_path": outp, "fails": [], "done": None,
            "generated": 0, "distinct": 0, "prints": []}
-    with open(outp) as f:
-        for line in f:
-            line = line.rstrip("\n")
-            m = _FAIL.match(line)
-            if m:
-                res["fails"].append(_parse_tuple_items(m.group(1)))
-                continue
-            if line.startswith('<<"DONE", '):
-                res["done"] = _parse_tuple_items(line[2:-2])[1:]
-                continue
-            if line.startswith('<<"') or line.startswith('"'):
-                res["prints"].append(line)
-            m = _STATS.search(line)
-            if m:
-                res["generated"], res["distinct"] = int(m.group(1)), int(m.group(2))
+    text = open(outp).read()
+    # TLC wraps long tuples over several lines: parse on the whole text
+    for m in re.finditer(r'<<\s*"FAIL",\s*(.*?)>>', text, re.S):
+        res["fails"].append(_parse_tuple_items(m.group(1)))
+    m = re.search(r'<<\s*"DONE",\s*(\d+),\s*(\d+)\s*>>', text)
+    if m:
+        res["done"] = [int(m.group(1)), int(m.group(2))]
+    for m in _STATS.finditer(text):
+        res["generated"], res["distinct"] = int(m.group(1)), int(m.group(2))
     return res
 
 
